@@ -226,6 +226,15 @@ func runC15(c *fw.Case) {
 		m = base("dsa-algorithm")
 		m.algo = "dsaWithSha256"
 		recs = append(recs, m)
+		// the algorithm field names what the signature was made with: a record that names
+		// another hash, another scheme or a differently spelled name was not signed that way
+		otherNames := []string{"sha384WithRsaEncryption", "sha512WithRsaEncryption", "sha1WithRsaEncryption", "ecdsaWithSha384", "ecdsaWithSha512", "dsaWithSha256",
+			"SHA256WithRSAEncryption", "ECDSAWithSHA256", "sha256WithRsaEncryption ", "", "SHA256-RSA", "ECDSA-SHA256", "rsassaPss", "ed25519"}
+		for k := 0; k < 2; k++ {
+			m = base("algorithm-named-differently")
+			m.algo = otherNames[c.R.Intn(len(otherNames))]
+			recs = append(recs, m)
+		}
 		m = base("certificate-of-another-key")
 		m.cert = other.pem
 		recs = append(recs, m)
